@@ -34,6 +34,9 @@ type c20Case struct {
 	Inbound   []c20Env                `json:"inbound"`
 	Mode      string                  `json:"mode"` // listen-server | listen-client | server
 	Transport string                  `json:"transport"`
+	// GaveUp: indexes of inbound response commands whose id the listening side had asked for before, with a ProcessCommand it
+	// gave up on (its context ran out unanswered). The answer that comes later is an inbound response command like any other.
+	GaveUp []int `json:"gaveUp,omitempty"`
 }
 
 type c20Inv struct {
@@ -45,6 +48,7 @@ type c20Inv struct {
 }
 
 type c20Obs struct {
+	GivenUp int `json:"givenUp,omitempty"`
 	Log        []c20Inv `json:"log"`
 	ListenErr  string   `json:"listenErr,omitempty"`
 	Returned   bool     `json:"returned"`
@@ -329,6 +333,47 @@ func runC20(c *c20Case) *c20Obs {
 		} else {
 			from = cch
 		}
+		if len(c.GaveUp) > 0 {
+			var asker sender = sch
+			var asked <-chan *lime.RequestCommand = cch.ReqCmdChan()
+			if c.Mode == "listen-client" {
+				asker, asked = cch, sch.ReqCmdChan()
+			}
+			stop := make(chan struct{})
+			drained := make(chan struct{})
+			go func() {
+				// the peer takes the requests and leaves them unanswered
+				defer close(drained)
+				for {
+					select {
+					case _, ok := <-asked:
+						if !ok {
+							return
+						}
+					case <-stop:
+						return
+					}
+				}
+			}()
+			for _, g := range c.GaveUp {
+				if g < 0 || g >= len(c.Inbound) || c.Inbound[g].Kind != "response" {
+					continue
+				}
+				req := &lime.RequestCommand{}
+				req.ID, req.Method = c20EnvID(g, c.Inbound[g]), lime.CommandMethodGet
+				req.SetURIString("/late")
+				pctx, pc := context.WithTimeout(context.Background(), 200*time.Millisecond)
+				if resp, err := asker.ProcessCommand(pctx, req); err == nil {
+					obs.Note = fmt.Sprintf("harness: a request nobody answers got the response %v", resp)
+				} else {
+					obs.GivenUp++
+				}
+				pc()
+			}
+			synctest.Wait()
+			close(stop)
+			<-drained
+		}
 	}
 	for _, v := range built {
 		sctx, sc := context.WithTimeout(context.Background(), 2*time.Second)
@@ -394,6 +439,9 @@ func judgeC20(c *c20Case, obs *c20Obs, o *Outcome) {
 	if strings.HasPrefix(obs.Note, "harness:") {
 		o.Fail("C20/harness", "%s", obs.Note)
 		return
+	}
+	if obs.GivenUp > 0 {
+		o.Class("responses-to-requests-given-up-on")
 	}
 	exp, _ := c20Model(c)
 	// observed per kind
@@ -498,6 +546,13 @@ func genC20(rt *rapid.T) *c20Case {
 	for i := 0; i < n; i++ {
 		c.Inbound = append(c.Inbound, c20Env{Kind: rapid.SampledFrom(c20Kinds).Draw(rt, "kind"), Class: rapid.IntRange(0, 3).Draw(rt, "class")})
 	}
+	if c.Mode != "server" && rapid.IntRange(0, 2).Draw(rt, "gaveUp?") == 0 {
+		for i, e := range c.Inbound {
+			if e.Kind == "response" && len(c.GaveUp) < 3 && rapid.Bool().Draw(rt, "gaveUp") {
+				c.GaveUp = append(c.GaveUp, i)
+			}
+		}
+	}
 	return c
 }
 
@@ -553,6 +608,14 @@ func TestC20Tables(t *testing.T) {
 				c := &c20Case{Tables: map[string][]c20Handler{kind: tbl}, Mode: []string{"listen-server", "listen-client", "server"}[(ti+ki)%3], Transport: []string{"inproc", "tcp"}[ti%2]}
 				for _, s := range [][2]int{{0, 1}, {1, 0}, {0, 0}, {1, 1}} {
 					c.Inbound = append(c.Inbound, c20Env{Kind: kind, Class: s[0]}, c20Env{Kind: c20Kinds[(ki+1)%4], Class: s[1]}, c20Env{Kind: kind, Class: s[1]})
+				}
+				if c.Mode != "server" && ti%3 == 0 {
+					// some of the response commands answer requests the listening side gave up on
+					for i, e := range c.Inbound {
+						if e.Kind == "response" && i%2 == 0 && len(c.GaveUp) < 3 {
+							c.GaveUp = append(c.GaveUp, i)
+						}
+					}
 				}
 				o := &Outcome{}
 				var obs *c20Obs
